@@ -86,7 +86,8 @@ def _pbar_full(
             yield obj
             i += 1
 
-            p = int(i / total * 10)
+            # total can be zero (or too small) for a non-empty iterable
+            p = int(i / total * 10) if total > 0 else 10
             if p > plast:
                 _pnn(p, file)
                 plast = p
@@ -181,7 +182,8 @@ def sbar(iterable, desc='', total=None, file=sys.stderr):
         yield obj
         i += 1
 
-        p = int(i / total * 10)
+        # total can be zero (or too small) for a non-empty iterable
+        p = int(i / total * 10) if total > 0 else 10
 
         if p > plast:
             pnn(p)
